@@ -90,6 +90,22 @@ def edge_tri(rng):
     return tuple((s if i % 2 == 0 else t) * (8192 - rng.randrange(0, 25)) for i in range(6))
 
 
+def long_thin_tri(rng, L=4000, off=4000):
+    """long shallow / steep slivers (few rows or columns, edges thousands of pixels long) anywhere within +-8192"""
+    x, y = rng.randrange(-off, off + 1), rng.randrange(-off, off + 1)
+    l = rng.randrange(L // 4, L + 1) * rng.choice([-1, 1])
+    h1, h2 = rng.randrange(-6, 7), rng.randrange(-6, 7)
+    m = rng.randrange(-20, abs(l) + 21) * (1 if l > 0 else -1)
+    v = [(x, y), (x + l, y + h1), (x + m, y + h2)]
+    if rng.random() < 0.5:
+        v = [(b, a) for a, b in v]
+    rng.shuffle(v)
+    return (*v[0], *v[1], *v[2])
+
+
+STYLES_W0 = [(f, s, a) for f in (0, 1) for s in (0, 1) for a in (0, 1, 2)]
+
+
 def rnd_poly(rng, maxn=6, m=30):
     n = rng.randrange(0, maxn + 1)
     vs = []
@@ -130,6 +146,20 @@ def cases(tier, rng):
         t = edge_tri(rng)
         yield J('tri_points', *t)
         yield J('tri_bbox', *tuple(rng.randrange(-8192, 8193) for _ in range(6)))
+    # size reach: medium triangles up to +-300 and long slivers with edges up to 4000 pixels inside +-8192
+    for _ in range(40 if tier == 'quick' else 400):
+        yield J('tri_points', *tuple(rng.randrange(-300, 301) for _ in range(6)))
+    for _ in range(100 if tier == 'quick' else 1000):
+        yield J('tri_points', *long_thin_tri(rng))
+    # the styled fill (Model/Tristyled.v tri_styled_pixels_w0, cited by C19_tri_styled_fill_is_points): pixels() and the
+    # fill_solid calls of draw() for stroke width 0, every fill / stroke-colour / alignment combination
+    for k, t in enumerate(grid_multisets(5)):
+        f, sc, al = STYLES_W0[k % 12]
+        yield J('tri_styled_w0', *t, f, sc, al)
+        if k % 3 == 0:
+            yield J('tri_styled_w0_draw', *t, 1, sc, al)
+    for _ in range(n // 3):
+        yield J('tri_styled_w0', *rnd_tri(rng), rng.randrange(2), rng.randrange(2), rng.randrange(3))
     # polylines
     lists = list(poly_lists(PTS3, 4)) + list(poly_lists(PTS4, 6))
     if tier != 'quick':
@@ -160,15 +190,30 @@ def search(tier, rng):
         yield J('p_tri', *t)
     for t in grid_multisets(6):
         yield J('p_tri_fill', *t)
+    # 1px outline: Center on all ordered triples; Inside / Outside on all ordered triples of a smaller grid (thorough: same grid)
     for t in (grid_triples(6) if tier == 'quick' else grid_triples(7)):
-        yield J('p_tri_outline', *t)
+        yield J('p_tri_outline', *t, 1)
+    for t in (grid_triples(5) if tier == 'quick' else grid_triples(7)):
+        yield J('p_tri_outline', *t, 0)
+        yield J('p_tri_outline', *t, 2)
+    # fill + stroke: every lattice point of the closed triangle is painted (clause 1 at Styled::pixels()/draw())
+    for k, t in enumerate(grid_multisets(6)):
+        for w in ((1, 2) if tier == 'quick' else (1, 2, 3, 4)):
+            for al in (0, 1, 2):
+                yield J('p_tri_cover', w, al, 1, 1, *t)
+        yield J('p_tri_cover', 1 + k % 4, k % 3, 1, 0, *t)
+        yield J('p_tri_cover', 1 + k % 4, (k // 3) % 3, 0, 1, *t)
     n = 2500 if tier == 'quick' else 40000
     for _ in range(n):
         t = rnd_tri(rng, 60)
         yield J('p_tri', *t)
         if rng.random() < 0.3:
             yield J('p_tri_fill', *rnd_tri(rng, 40))
-        yield J('p_tri_outline', *rnd_tri(rng, 60))
+        yield J('p_tri_outline', *rnd_tri(rng, 60), rng.randrange(3))
+        yield J('p_tri_cover', rng.choice([0, 1, 1, 2, 3, 4, rng.randrange(0, 13)]), rng.randrange(3), 1, rng.choice([1, 1, 1, 0]), *rnd_tri(rng, 40))
+    for _ in range(60 if tier == 'quick' else 600):
+        yield J('p_tri', *long_thin_tri(rng))
+        yield J('p_tri_outline', *long_thin_tri(rng, 1500), rng.randrange(3))
     for _ in range(n // 10):
         yield J('p_tri', *edge_tri(rng))
         off = (rng.choice([-1, 1]) * rng.randrange(900, 1000), rng.choice([-1, 1]) * rng.randrange(900, 1000))
